@@ -40,7 +40,7 @@ def seeds():
     admin = [
         {'apiVersion': 'policy.networking.k8s.io/v1alpha1', 'kind': 'AdminNetworkPolicy', 'metadata': {'name': 'anp1'},
          'spec': {'priority': 5, 'subject': {'namespaces': {'matchLabels': {'env': 'a'}}},
-                  'ingress': [{'name': 'r1', 'action': 'Allow', 'from': [{'pods': {'namespaceSelector': {}, 'podSelector': {'matchLabels': {'app': 'b'}}}}],
+                  'ingress': [{'name': 'r1', 'action': 'Allow', 'from': [{'pods': {'namespaceSelector': {'matchExpressions': [{'key': 'env', 'operator': 'In', 'values': ['a']}]}, 'podSelector': {'matchLabels': {'app': 'b'}}}}],
                                'ports': [{'portNumber': {'protocol': 'TCP', 'port': 80}}, {'namedPort': 'dns'}, {'portRange': {'protocol': 'UDP', 'start': 1, 'end': 100}}]}],
                   'egress': [{'name': 'r2', 'action': 'Pass', 'to': [{'namespaces': {}}]}]}},
         {'apiVersion': 'policy.networking.k8s.io/v1alpha1', 'kind': 'BaselineAdminNetworkPolicy', 'metadata': {'name': 'default'},
@@ -121,8 +121,8 @@ def main(tier):
     if tier == 'quick':
         # always include the structurally interesting ones (optional pointer fields), sample the rest
         hot = [m for m in muts if any(k in ('controller', 'ownerReferences', 'template', 'http', 'hostIP', 'podIPs', 'port', 'ports', 'rules', 'paths', 'backend', 'service', 'to',
-                                            'defaultBackend', 'jobTemplate', 'replicas', 'selector', 'subject', 'from', 'ipBlock', 'cidr', 'targetPort') for k in m[2] if isinstance(k, str))
-               and m[3] in ('drop', None)]
+                                            'defaultBackend', 'jobTemplate', 'replicas', 'selector', 'subject', 'from', 'ipBlock', 'cidr', 'targetPort', 'values', 'matchExpressions', 'namespaceSelector', 'podSelector', 'operator') for k in m[2] if isinstance(k, str))
+               and (m[3] in ('drop', None) or ('values' in m[2] and m[3] in ([], '')))]
         rest = [m for m in muts if m not in hot]
         muts = hot + run.rng.sample(rest, min(len(rest), 900))
     docs, admin = seeds()
@@ -242,6 +242,11 @@ def main(tier):
             for nsd in W['namespaces']:
                 if run.rng.random() < 0.4:
                     nsd['obj'] = False
+            if g == 2 and run.rng.random() < 0.5:
+                # a NetworkPolicy in the namespace of the synthetic ingress-controller pod selects that pod as well
+                dd = run.rng.choice(['ingress', 'egress'])
+                W['netpols'].append({'ns': 'ingress-controller-ns', 'name': 'npic', 'podSelector': {}, 'policyTypes': ['Ingress' if dd == 'ingress' else 'Egress'],
+                                     dd: [{'from' if dd == 'ingress' else 'to': [{'namespaceSelector': {}}], 'ports': [{'protocol': 'TCP', 'port': run.rng.choice(gen.PORTS)}]}]})
             ms = [m for m, _ in gen.docs(W)] + [c10.manifest(o) for o in W.get('ingress_objs') or []]
             run.rng.shuffle(ms)
             d = h.dir_for('w%d' % i)
